@@ -76,3 +76,21 @@ def run_bounded(rep, kf, prop, names, tier):
     for n in names:
         d = BOUNDED[n]
         bounded.run(rep, prop, n, d["unit"], d["where"], d["statement"], d["bound"], tier, known=d.get("known"), kf=kf)
+
+
+def discharge_parallel(rep, kf, contracts, prop, tier, seed):
+    """engine_b.discharge with one worker per case (independent obligations; used for the slower inductive contracts)"""
+    from pyvc import core, engine_b
+    from pyvc.engine_b import FnContract
+    tasks = []
+    for c in contracts:
+        for case in c.cases:
+            if prop not in (case.props or [prop]):
+                continue
+            def task(c=c, case=case):
+                r = core.Report(prop, tier, seed)
+                engine_b.discharge(r, kf, [FnContract(c.qualname, [case])], prop, tier, seed)
+                return r
+            tasks.append(task)
+    for r in core.run_parallel(tasks):
+        rep.merge(r)
